@@ -109,6 +109,31 @@ def write_replay(prop, payload, diffs, what=""):
     return path
 
 
+def isolated_replay(prop, payload):
+    """replay in a fresh interpreter (for properties about process-wide state)"""
+    import subprocess
+    import tempfile
+    with tempfile.NamedTemporaryFile("w", suffix=".json", delete=False) as f:
+        json.dump({"payload": payload}, f)
+        path = f.name
+    try:
+        p = subprocess.run([sys.executable, "-m", "olverif", prop, "--replay", path],
+                           capture_output=True, text=True, timeout=900)
+    finally:
+        os.unlink(path)
+    if p.returncode == 0:
+        return []
+    if p.returncode == 1:
+        return [l.strip() for l in p.stdout.splitlines() if l.startswith("  ")] or ["replay failed"]
+    raise env.HarnessError("isolated replay failed: %s" % p.stderr[-400:])
+
+
+def _replay(prop, eng, w):
+    if getattr(eng, "REPLAY_IN_FRESH_PROCESS", False):
+        return isolated_replay(prop, w)
+    return eng.replay(w)
+
+
 def replay_findings(prop, eng, report):
     """Replay the witnesses of this property's entries. Open + still failing ->
     KNOWN-FINDING line; fixed + failing -> violation."""
@@ -120,7 +145,7 @@ def replay_findings(prop, eng, report):
         failing = 0
         for w in e.get("witnesses", []):
             try:
-                diffs = eng.replay(w)
+                diffs = _replay(prop, eng, w)
             except env.HarnessError:
                 raise
             except BaseException as ex:
@@ -137,7 +162,7 @@ def replay_findings(prop, eng, report):
             continue
         for w in e.get("witnesses", []):
             try:
-                diffs = eng.replay(w)
+                diffs = _replay(prop, eng, w)
             except env.HarnessError:
                 raise
             except BaseException as ex:
